@@ -461,8 +461,21 @@ class Interp:
                 c.methods[st.name] = Closure(st, mod, enclosing, f"{qualname}.{st.name}", cls=c, kind=kind)
             elif isinstance(st, ast.Assign) and len(st.targets) == 1 and isinstance(st.targets[0], ast.Name):
                 c.attrs[st.targets[0].id] = ("lazy", st.value)
+                if "Enum" in bases:
+                    c.enum_members = getattr(c, "enum_members", []) + [st.targets[0].id]
             elif isinstance(st, ast.AnnAssign) and isinstance(st.target, ast.Name) and st.value is not None:
                 c.attrs[st.target.id] = ("lazy", st.value)
+        c.decorator_names = [ast.unparse(d) for d in node.decorator_list]
+        if "Enum" in bases:
+            from .models import EnumAuto, EnumMember
+
+            last = 0
+            for nm in getattr(c, "enum_members", []):
+                v = self.eval_in(c.attrs[nm][1], mod, enclosing)
+                if isinstance(v, EnumAuto):
+                    v = last + 1
+                last = v if isinstance(v, int) else last
+                c.attrs[nm] = ("val", EnumMember(c, nm, v))
         return c
 
     def eval_in(self, node, mod, enclosing):
@@ -912,6 +925,8 @@ class Interp:
             return len(v) > 0
         if isinstance(v, (tuple, list)):
             return len(v) > 0
+        if isinstance(v, PyList):
+            return len(v.items) > 0
         if hasattr(v, "pvc_truth"):
             return v.pvc_truth(self)
         if isinstance(v, SSeq):
@@ -1146,6 +1161,23 @@ class Interp:
         init = cls.lookup("__init__")
         if isinstance(init, Closure):
             self.call_closure(init, [obj] + list(args), kwargs)
+        elif any(d.startswith("dataclass") for c in [cls] + [b for b in cls.bases if isinstance(b, ClassV)] for d in getattr(c, "decorator_names", [])):
+            from .models import dataclass_fields
+
+            names = dataclass_fields(self, cls)
+            vals = dict(zip(names, args))
+            for k, v in kwargs.items():
+                if k not in names:
+                    raise PyRaise("TypeError")
+                vals[k] = v
+            for nm in names:
+                if nm in vals:
+                    obj.fields[nm] = vals[nm]
+                else:
+                    d = self.class_attr(cls, nm)
+                    if d is None:
+                        raise PyRaise("TypeError")
+                    obj.fields[nm] = d
         return obj
 
     def call_closure(self, fn, args, kwargs):
@@ -1411,7 +1443,19 @@ class Interp:
 
     def s_Try(self, n):
         if n.finalbody:
-            raise Unsupported("try/finally")
+            if self.merge_depth:
+                raise Unsupported("try/finally inside a summarised loop")
+            inner = ast.Try(body=n.body, handlers=n.handlers, orelse=n.orelse, finalbody=[])
+            try:
+                if n.handlers or n.orelse:
+                    self.s_Try(inner)
+                else:
+                    self.exec_block(n.body)
+            except (PyRaise, ReturnSignal, BreakSignal, ContinueSignal):
+                self.exec_block(n.finalbody)
+                raise
+            self.exec_block(n.finalbody)
+            return
         try:
             self.exec_block(n.body)
         except PyRaise as e:
@@ -2030,7 +2074,12 @@ class PyList:
                 if isinstance(s, PyList):
                     self.items.extend(s.items)
                 else:
-                    raise Unsupported("extend of concrete list by symbolic sequence")
+                    # the list object becomes a symbolic-length list: every reference to it is rebound
+                    new = SSeq.from_list(self.items).concat(s) if self.items else s
+                    if new is s:
+                        new = SSeq(s.length, s.fn, s.desc)
+                    new.pvc_type = "list"
+                    I.replace_object(self, new)
 
             return BoundMethod(self, Builtin("list.extend", f))
         if name == "index":
